@@ -65,11 +65,30 @@ func c14Universe() []*canon.Node {
 	return u
 }
 
+var c14Calls, c14Disturbed int
+var c14Disturb []types.MalType
+
+func c14InitDisturb(env types.EnvType) {
+	for _, src := range []string{"(= [+ 1 2] [+ 3 4])", "(= (list (fn (x) x) 1 2) (list (fn (x) x) 3 4))", "(= {:f + :a 1} {:f + :a 2})", "(= [[count 1] 2] [[count 1] 3])", "(= (atom 1) (atom 2))", "(= [(atom 1) :a] [(atom 1) :b])", "(= + +)"} {
+		if ast, err := lisp.READ(src, nil, env); err == nil {
+			c14Disturb = append(c14Disturb, ast)
+		}
+	}
+}
+
 func c14Eq(env types.EnvType, a, b types.MalType) (res types.MalType, err error, panicked bool, msg string) {
 	q := func(v types.MalType) types.MalType {
 		return types.List{Val: []types.MalType{types.Symbol{Val: "quote"}, v}}
 	}
 	ast := types.List{Val: []types.MalType{types.Symbol{Val: "="}, q(a), q(b)}}
+	c14Calls++
+	if c14Calls%7 == 0 && c14Disturb != nil {
+		// history: a comparison that involves functions inside collections (it fails or answers false on this tree)
+		// happened just before; the answer for data must not depend on what was compared earlier (seeded C14-m15)
+		d := c14Disturb[(c14Calls/7)%len(c14Disturb)]
+		fw.Guard(func() { lisp.EVAL(context.Background(), d, env) })
+		c14Disturbed++
+	}
 	p, site, m, _ := fw.Guard(func() { res, err = lisp.EVAL(context.Background(), ast, env) })
 	if p {
 		return nil, nil, true, site + ": " + m
@@ -344,6 +363,8 @@ func c14Construct(r *rand.Rand, v *canon.Node, path int) string {
 
 func runC14(c *fw.Ctx) {
 	env := hx.NewStdEnv()
+	c14InitDisturb(env)
+	defer func() { c.Count("comparisons_preceded_by_a_comparison_of_functions", c14Disturbed) }()
 	// (1) exhaustive universe: all ordered pairs
 	u := c14Universe()
 	gu := make([]types.MalType, len(u))
